@@ -23,27 +23,27 @@ def scen(driver, variants, quick, thorough, rule, level="exploration", **kw):
 
 PROPS = {
     "C01": scen("c01", ["default", "default", "default", "tiny"],
-                quick=dict(cases=1500, size=60), thorough=dict(cases=40000, size=90, budget_s=3000),
+                quick=dict(cases=1500, size=60), thorough=dict(cases=40000, size=90, budget_s=1500),
                 rule="rapidcheck-generated multi-peer histories of add/remove/change/fetch/unfetch/connect/disconnect over raw, local-socket and "
                      "WebSocket peers with random event-batch grouping; every step is judged against the reference model and the per-fetch replica "
                      "rebuilt from received notifications. Non-trivial = at least one fetch, at least two notifications and at least one quiescent "
                      "point where a replica with >=2 entries was compared; distinct = distinct scenario hash (per variant)."),
     "C03": scen("c03", ["default", "default", "tiny", "default"],
-                quick=dict(cases=1500, size=60), thorough=dict(cases=40000, size=90, budget_s=3000),
+                quick=dict(cases=1500, size=60), thorough=dict(cases=40000, size=90, budget_s=1500),
                 rule="rapidcheck-generated histories of set/call by several callers to several owners with owner replies (result, error, duplicate, "
                      "forged id, another owner's id), timer expiry through the virtual clock, connects/disconnects of callers, owners and bystanders, "
                      "in the shipped and in a 4-slot routing-table configuration; every step is judged against the reference model (routed message at "
                      "the owner only, payload equality, one final answer with the original id, unique routed ids). Non-trivial = at least one request "
                      "was routed and concluded by reply, timeout or owner disconnect; distinct = scenario hash."),
     "C04": scen("c04", ["default", "default", "default", "tiny"],
-                quick=dict(cases=700, size=60), thorough=dict(cases=20000, size=90, budget_s=3000),
+                quick=dict(cases=700, size=60), thorough=dict(cases=20000, size=90, budget_s=1500),
                 rule="rapidcheck-generated sequences of add/remove/change/set/call/get and single-defect malformed requests by several peers over an "
                      "adversarial path pool (empty, 215-byte, non-ASCII, quoted/escaped, paths sharing a home bucket of the 2^13 index) and arbitrary JSON "
                      "values; an observer connection holds a fetch-all and issues get after every operation, so the daemon's own element set is compared "
                      "with the reference map after every step. Non-trivial = at least one mutation refused for ownership/kind/existence and at least one "
                      "re-add of a path after its removal or its owner's disconnect; distinct = scenario hash."),
     "C15": scen("c15", ["default", "default", "default", "small"], level="fault_enumeration",
-                quick=dict(cases=1, size=22), thorough=dict(cases=12, size=40, budget_s=3400),
+                quick=dict(cases=1, size=22), thorough=dict(cases=12, size=40, budget_s=1800),
                 rule="rapidcheck-generated scenarios (raw + WebSocket + optional further peers; add/remove/change/fetch/unfetch/get/set/call/reply/config/info/"
                      "authenticate with a credential file/malformed requests/batches/invalid JSON/timer expiry/connects/ends by EOF, hang-up and reset, ended by "
                      "close-all or SIGTERM). For every scenario one clean execution counts the allocations N made after the idle baseline; then N executions "
@@ -54,14 +54,14 @@ PROPS = {
                      "allocation's call chain (nm symbol table of the test binary). evaluations counts executions; distinct non-trivial = scenarios with >=20 "
                      "allocations after the baseline (distinct scenario hashes)."),
     "C16": scen("c16", ["default"],
-                quick=dict(cases=1200, size=60), thorough=dict(cases=40000, size=100, budget_s=3000),
+                quick=dict(cases=1200, size=60), thorough=dict(cases=40000, size=100, budget_s=1500),
                 rule="rapidcheck-generated families of 4-8 related paths (prefixes/suffixes/infixes/case variants of each other, non-ASCII, empty) and rule "
                      "objects (any multiset and order of the six matchers, operands derived from the paths by 9 transformations, caseInsensitive absent/true/false/"
                      "repeated/first/last, unknown names, mistyped operands, 12 and 14 matchers); every rule is used for get and for fetch (states and methods), "
                      "followed by a change and by re-use of the same fetch id; selections and events are compared with an independent matcher. "
                      "Non-trivial = at least one well-formed rule selects a proper non-empty subset of the paths; distinct = scenario hash."),
     "C02": scen("c02", ["default"],
-                quick=dict(cases=1500, size=60), thorough=dict(cases=40000, size=100, budget_s=3000),
+                quick=dict(cases=1500, size=60), thorough=dict(cases=40000, size=100, budget_s=1500),
                 rule="rapidcheck-generated request objects of 26 shapes (every dispatcher method, unknown/empty/non-string methods, missing, mistyped and "
                      "duplicated members, unsolicited response objects, neither-request-nor-response) crossed with 27 id values of every JSON type "
                      "(strings incl. empty/200-byte/escaped, integers around 2^31/2^32/2^53, fractions, exponent forms, null/bool/object/array, absent), single "
@@ -70,7 +70,7 @@ PROPS = {
                      "result/error on the requester's connection only, batch order, nothing for id-less requests and response objects). "
                      "Non-trivial = the scenario contains a batch of >=2 members, a non-numeric id, or an incoming response object; distinct = scenario hash."),
     "C06": scen("c06", ["default", "default", "default", "tiny"],
-                quick=dict(cases=900, size=50), thorough=dict(cases=40000, size=80, budget_s=3000),
+                quick=dict(cases=900, size=50), thorough=dict(cases=40000, size=80, budget_s=1500),
                 fuzz=dict(mode="c06", quick=dict(workers=4, runs=12000, max_len=1024), thorough=dict(workers=6, runs=1500000, max_len=2048)),
                 rule="rapidcheck-generated hostile traffic on raw, local-socket and HTTP/WebSocket endpoints, several connections interleaved: request objects with a "
                      "valid skeleton and hostile members (every dispatcher method; ids, params, paths, values, timeouts from 0 to 1e400, access lists, fetch ids "
@@ -88,7 +88,7 @@ PROPS = {
                      "an empty corpus; a crash artifact counts only if it reproduces from the saved input; non-trivial there = >=2 messages/frames/blobs "
                      "delivered and the input not seen before."),
     "C07": scen("c07", ["default", "default", "small", "default"],
-                quick=dict(cases=1200, size=60), thorough=dict(cases=40000, size=100, budget_s=3000),
+                quick=dict(cases=1200, size=60), thorough=dict(cases=40000, size=100, budget_s=1500),
                 fuzz=dict(mode="c07", quick=dict(workers=2, runs=12000, max_len=1024), thorough=dict(workers=4, runs=1500000, max_len=2048)),
                 rule="rapidcheck-generated connection histories over raw, local-socket and WebSocket peers (every request kind, malformed and hostile "
                      "requests, batches, raw byte blobs, repeated authenticate with a credential file, routed requests left in flight, abrupt ends) with "
@@ -99,7 +99,7 @@ PROPS = {
                      "In addition 2 (quick) / 4 (thorough) coverage-guided libFuzzer workers (fuzz/dfuzz.cpp, the daemon in-process) apply the same baseline, "
                      "exit and hygiene oracles to byte-level generated sessions."),
     "C05": scen("c05", ["default"],
-                quick=dict(cases=1500, size=60), thorough=dict(cases=40000, size=100, budget_s=3000),
+                quick=dict(cases=1500, size=60), thorough=dict(cases=40000, size=100, budget_s=1500),
                 rule="rapidcheck-generated histories in which peers on raw, local-socket and WebSocket transports own elements, hold fetches and are caller or "
                      "owner of routed requests, and then end: EOF, hang-up or reset, alone or in the same event batch as other traffic, after a truncated "
                      "length prefix / message / WebSocket frame, or dropped by the daemon for invalid JSON, an over-long message or a WebSocket protocol "
@@ -107,7 +107,7 @@ PROPS = {
                      "descriptor-hygiene monitor and the sanitizers watch the released connection. Non-trivial = the ending peer owned an element with "
                      "effects, or had a routed request in either role; distinct = scenario hash."),
     "C11": scen("c11", ["default"], level="fault_enumeration",
-                quick=dict(cases=900, size=60), thorough=dict(cases=30000, size=100, budget_s=3000),
+                quick=dict(cases=900, size=60), thorough=dict(cases=30000, size=100, budget_s=1500),
                 rule="rapidcheck-generated multi-peer histories (add/remove/change/fetch/set/call/reply/timeouts) in which a generated subset of peers is made "
                      "faulty at generated moments: send path full forever (EAGAIN), kernel accepts only 3 or 40 more bytes, writes fail with EPIPE/ECONNRESET, "
                      "the peer sends garbage, or accept() fails with ECONNABORTED/EMFILE/ENFILE/EINTR/ENOMEM/EPROTO for the next connection attempts; one faulty "
@@ -117,7 +117,7 @@ PROPS = {
                      "Non-trivial = at least one step delivered to a faulty peer while healthy peers were entitled to messages, or an injected accept failure "
                      "followed by further connects; distinct = scenario hash."),
     "C14": scen("c14", ["default"],
-                quick=dict(cases=1200, size=60), thorough=dict(cases=40000, size=100, budget_s=3000),
+                quick=dict(cases=1200, size=60), thorough=dict(cases=40000, size=100, budget_s=1500),
                 rule="rapidcheck-generated histories of set/call with request timeouts and element timeouts drawn from {absent, 0.001, 0.00099999, 0.0010001, "
                      "0.0005, 0, -1, 0.25, 0.5, 2, 7.5, 10, string, bool, null} in every precedence combination, owner replies, caller/owner disconnects and "
                      "virtual-clock advances straddling the deadlines; steps that join a clock advance with a reply or a disconnect put the timer expiry and "
@@ -127,7 +127,7 @@ PROPS = {
                      "effect, sanitizers silent. Non-trivial = at least one armed duration was compared and the scenario has a timeout or a race step; "
                      "distinct = scenario hash."),
     "C08": scen("c08", ["default", "default", "default", "local"],
-                quick=dict(cases=900, size=60), thorough=dict(cases=30000, size=100, budget_s=3000),
+                quick=dict(cases=900, size=60), thorough=dict(cases=30000, size=100, budget_s=1500),
                 rule="rapidcheck-generated credential files (1-6 users, group universes of 3, 6 and the full 32 groups, random fetch/set/call group sets, DES/MD5/"
                      "SHA-256/SHA-512 hashes computed by the harness, admin/readonly flags) or no credential file; elements added with random access declarations "
                      "(including none and groups nobody holds); sequences of authenticate (right password, wrong password, unknown user, repeated, switching "
@@ -144,7 +144,7 @@ PROPS = {
                 prefix_defined_in=["zlib/adler32.c", "zlib/deflate.c", "zlib/inffast.c", "zlib/inflate.c", "zlib/inftrees.c", "zlib/trees.c", "zlib/zutil.c"],
                 shims=["c19_shim.c"], libs=["-lrapidcheck", "-lz"],
                 quick=dict(plan=[dict(bin="asan", mode="random", cases=800, size=40) for _ in range(16)]),
-                thorough=dict(plan=[dict(bin="asan", mode="random", cases=150000, size=80) for _ in range(16)], budget_s=3000),
+                thorough=dict(plan=[dict(bin="asan", mode="random", cases=150000, size=80) for _ in range(16)], budget_s=1500),
                 rule="a WebSocket server endpoint built from the real websocket.c, compression.c, http_connection.c and the vendored zlib (symbols prefixed) at "
                      "compression levels 0-3, driven over an in-memory reader by a client that uses the system zlib. rapidcheck generates the extension offer "
                      "(0-3 offers of permessage-deflate or other names with 0-4 parameters: client/server_max_window_bits with and without values 8-15, both "
@@ -159,7 +159,7 @@ PROPS = {
                 level_text="Sampling of offers, payloads, fragmentations and corruptions against an independent codec; no exhaustive sub-domain.",
                 level_note="Trusts system zlib 1.2.13, the harness frame codec and its reading of RFC 7692 7.1; the daemon itself runs compression level 0, so this is a module-level property."),
     "C20": scen("c20", ["default"], level="fault_enumeration",
-                quick=dict(cases=200, size=40), thorough=dict(cases=6000, size=80, budget_s=3000),
+                quick=dict(cases=200, size=40), thorough=dict(cases=6000, size=80, budget_s=1500),
                 rule="rapidcheck-generated histories of authenticate / passwd on 2-5 connections over a credential file with plain, admin, read-only and "
                      "admin+read-only users (MD5/SHA-256/SHA-512 hashes made by the harness): own account, other accounts, unknown users, read-only targets, "
                      "unauthenticated callers, re-authentication with the password in force, a wrong one and the original one; before password changes the "
@@ -170,7 +170,7 @@ PROPS = {
                      "change must have no effect in memory and on disk. evaluations counts histories plus image probes. Non-trivial = at least one password "
                      "change was carried out and at least one durable image was probed; distinct = scenario hash."),
     "C09": scen("c09", ["default"],
-                quick=dict(cases=450, size=60), thorough=dict(cases=12000, size=100, budget_s=3000),
+                quick=dict(cases=450, size=60), thorough=dict(cases=12000, size=100, budget_s=1500),
                 rule="rapidcheck-generated base sessions (2-5 raw/WebSocket/local-socket connections; valid requests, batches, hostile ids, zero-length prefixes, "
                      "over-long prefixes, strict prefixes of valid JSON texts as whole messages, long fillers rich in }, ] and quotes, clean disconnects; one "
                      "operation per event-loop round so that message order is fixed) each executed under its base schedule and three generated alternative "
@@ -181,7 +181,7 @@ PROPS = {
                      "model (zero length skipped, over-long length ends the connection, incomplete JSON text rejected). evaluations counts executions (base + "
                      "variants). Non-trivial = at least one alternative schedule differs from the base and >=3 messages were sent; distinct = scenario hash."),
     "C10": scen("c10", ["default", "tiny"], level="fault_enumeration",
-                quick=dict(cases=1500, size=60), thorough=dict(cases=40000, size=120, budget_s=3000),
+                quick=dict(cases=1500, size=60), thorough=dict(cases=40000, size=120, budget_s=1500),
                 rule="rapidcheck-generated sessions in which a publisher's changes fan out to 6+ subscriptions on a raw and a WebSocket reader (plus get/info/"
                      "batch responses and routed traffic), crossed with generated kernel write behaviour per connection: accept everything, accept only the first "
                      "n bytes of the gathered buffers (n from 1 to 600: inside the 4-byte prefix / WebSocket header, inside the payload, inside the pending buffer), "
@@ -192,7 +192,7 @@ PROPS = {
                      "I/O on a blocking descriptor. Non-trivial = some write accepted a proper prefix, a later drain happened and >=10 frames were generated; "
                      "distinct = scenario hash."),
     "C12": scen("c12", ["default"],
-                quick=dict(cases=1500, size=60), thorough=dict(cases=40000, size=100, budget_s=3000),
+                quick=dict(cases=1500, size=60), thorough=dict(cases=40000, size=100, budget_s=1500),
                 rule="rapidcheck-generated valid upgrades (header order and case, extra headers incl. an extension offer, random 16-byte keys, protocol lists "
                      "containing jet, Connection/Upgrade value variants) followed by frame sequences on 1-3 WebSocket connections next to a raw peer: text "
                      "messages of boundary sizes (24..512 bytes, all three length encodings as needed) carrying JSON-RPC, pings/pongs of 0..125 bytes, unmasked "
@@ -204,7 +204,7 @@ PROPS = {
                      "and the connection ends; JSON-RPC over WebSocket and over raw agree with one shared reference model. Non-trivial = handshake succeeded and "
                      "at least one frame other than a plain text frame was judged; distinct = scenario hash."),
     "C13": scen("c13", ["default"],
-                quick=dict(cases=1500, size=60), thorough=dict(cases=40000, size=100, budget_s=3000),
+                quick=dict(cases=1500, size=60), thorough=dict(cases=40000, size=100, budget_s=1500),
                 rule="rapidcheck-generated HTTP exchanges on the WebSocket port: a valid upgrade with exactly one defect - wrong path, method or version, malformed "
                      "request line after a matching target, one corrupted byte inside the request line, header line without colon, request or header line longer "
                      "than the read buffer, missing Upgrade/Connection/Sec-WebSocket-Key/-Version, key of wrong length, version != 13, protocol list without jet, "
@@ -217,7 +217,7 @@ PROPS = {
                 repo_sources=["alloc.c"], shims=["c17_support.c"], exhaustive=True,
                 multi=[("c17_table.c", ["-DT_TYPE=%d" % t, "-DT_ORDER=%d" % o], "tbl_%d_%d" % (t, o)) for t in range(3) for o in range(2, 14)],
                 quick=dict(plan=[dict(bin="asan", mode="exhaustive", cases=i, size=6) for i in range(9)] + [dict(bin="asan", mode="random", cases=2500, size=150) for _ in range(7)]),
-                thorough=dict(plan=[dict(bin="asan", mode="exhaustive", cases=i, size=7) for i in range(9)] + [dict(bin="asan", mode="random", cases=150000, size=300) for _ in range(7)], budget_s=3000),
+                thorough=dict(plan=[dict(bin="asan", mode="exhaustive", cases=i, size=7) for i in range(9)] + [dict(bin="asan", mode="random", cases=150000, size=300) for _ in range(7)], budget_s=1500),
                 rule="the real hashtable.h macros instantiated for orders 2..13 x {string,uint32,uint64} (36 tables). (1) exhaustive: for orders 2-4 and all three key "
                      "types, every sequence of length <=6 (quick) / <=7 (thorough) over an alphabet of 16 operations (put new/overwrite with and without prev_value, "
                      "remove, routing-style sweep) on 5 keys sharing or neighbouring a home bucket at the end and at the start of the table, deduplicated by table image; "
@@ -235,7 +235,7 @@ PROPS = {
                 quick=dict(plan=[dict(bin="fast", mode="words32", cases=0, size=0), dict(bin="fast", mode="words64", cases=300000, size=0)] +
                                 [dict(bin="asan", mode="strings", cases=40000, size=40) for _ in range(10)]),
                 thorough=dict(plan=[dict(bin="fast", mode="words32", cases=0, size=0), dict(bin="fast", mode="words64", cases=20000000, size=0)] +
-                                   [dict(bin="asan", mode="strings", cases=1500000, size=60) for _ in range(12)], budget_s=3000),
+                                   [dict(bin="asan", mode="strings", cases=1500000, size=60) for _ in range(12)], budget_s=1500),
                 rule="(1) exhaustive breadth-first product of the validator's state (through its public struct) with an independent RFC 3629 automaton over all 256 "
                      "byte values, with and without is_complete: verdicts and in-sequence status agree in every reachable pair (78 pairs); (2) all 2^32 "
                      "little-endian words through the 32-bit fast path from the initial state, verdict and resulting state compared; (3) 8^8 class-"
